@@ -355,6 +355,11 @@ func (w *amWorld) run(rep int, ri int, _ *Role, op *Op, call uint64) {
 		got, _ = w.mgr.SyncCommitteeAccountsForEpochByIndex(ctx, phase0.Epoch(op.A), indicesOf(op.B, len(w.accts)))
 	case "pubkey":
 		_, _ = w.mgr.AccountByPublicKey(ctx, w.accts[op.A%uint64(len(w.accts))].pubKey)
+	case "pubkeys":
+		// a busy proposer / relay: op.B lookups in a row, over all accounts
+		for k := uint64(0); k < op.B; k++ {
+			_, _ = w.mgr.AccountByPublicKey(ctx, w.accts[(op.A+k)%uint64(len(w.accts))].pubKey)
+		}
 	default:
 		panic("harness: unknown account manager op " + op.K)
 	}
@@ -445,7 +450,7 @@ func accountManagerRoles() []roleDef {
 		}
 	}
 	return []roleDef{
-		{kind: "refresh", max: 1, why: "periodic job 'Account refresh ticker'", gen: rep(1, 2, func(*rapid.T) Op { return Op{K: "refresh"} })},
+		{kind: "refresh", max: 1, why: "periodic job 'Account refresh ticker'", gen: rep(1, 3, func(*rapid.T) Op { return Op{K: "refresh"} })},
 		{kind: "validating", max: 3, why: "epoch ticker / prepare-for-epoch jobs / block relay periodic jobs / proposal preparer job",
 			gen: rep(1, 6, func(t *rapid.T) Op { return Op{K: "validating", A: epoch(t)} })},
 		{kind: "byIndex", max: 3, why: "attestation jobs (Attest, AttestAndScheduleAggregate)",
@@ -459,8 +464,13 @@ func accountManagerRoles() []roleDef {
 				}
 				return Op{K: "sync", A: epoch(t)}
 			})},
-		{kind: "byPubKey", max: 2, why: "blockrelay.AuctionBlock on proposal jobs",
-			gen: rep(1, 6, func(t *rapid.T) Op { return Op{K: "pubkey", A: rapid.Uint64Range(0, 7).Draw(t, "acct")} })},
+		{kind: "byPubKey", max: 4, why: "blockrelay.AuctionBlock on proposal jobs, the REST daemon's builder-bid requests (one goroutine per request)",
+			gen: rep(1, 4, func(t *rapid.T) Op {
+				if rapid.IntRange(0, 2).Draw(t, "burst") == 0 {
+					return Op{K: "pubkeys", A: rapid.Uint64Range(0, 7).Draw(t, "acct"), B: rapid.SampledFrom([]uint64{500, 2000, 6000}).Draw(t, "lookups")}
+				}
+				return Op{K: "pubkey", A: rapid.Uint64Range(0, 7).Draw(t, "acct")}
+			})},
 	}
 }
 
